@@ -165,28 +165,27 @@ Proof.
   unfold swap_input in H.
   destruct (v_open (vs v)); [|discriminate].
   destruct (s =? v_engine (vc v)); [|discriminate].
-  inv_bind H. inv_bind H. injection H as E1 E2 E3; subst v' qa ba.
+  inv_bind H. inv_bind H. inv_bind H. injection H as E1 E2 E3; subst v' qa ba.
   assert (Hbase : (quote = 0 /\ x = 0) \/ (0 < quote /\ input_price (v_dec (vc v)) d quote (v_q (vs v)) (v_b (vs v)) = Ok x)).
-  { destruct (Z.eqb_spec quote 0) as [E|E]; cbn [negb] in Hx.
-    - inv_ok. auto.
-    - right. split; [lia|]. inv_bind Hx. rewrite Hx1.
-      destruct (negb (lim =? 0)); [|inv_ok; reflexivity].
-      destruct d; destr_if_in Hx; try discriminate; inv_ok; reflexivity. }
+  { destruct (Z.eq_dec quote 0) as [E|E].
+    - left. subst. unfold input_price in Hx. cbn in Hx. inv_ok. auto.
+    - right. split; [lia|exact Hx]. }
+  rename Hx1 into Hupd.
   clear Hx.
   destruct Hbase as [[E1 E2]|[Hpos Hp]].
-  - subst. apply update_reserve_spec in Hx0; auto; try lia.
-    destruct Hx0 as (Hc & Ho & _ & _ & _ & Hwt & Hdir).
+  - subst. apply update_reserve_spec in Hupd; auto; try lia.
+    destruct Hupd as (Hc & Ho & _ & _ & _ & Hwt & Hdir).
     unfold wfv, kof, base_plus_net. rewrite Hc.
     destruct d; destruct Hdir as (E1 & E2 & E3 & E4); rewrite E1, E2, E4;
     rewrite ?Z.add_0_r, ?Z.sub_0_r; intuition lia.
   - destruct d.
-    + apply input_price_add in Hp; auto. destruct Hp as (Hx1 & Hk).
-      apply update_reserve_spec in Hx0; auto; try lia.
-      destruct Hx0 as (Hc & Ho & _ & _ & _ & Hwt & E1 & E2 & E3 & E4).
+    + apply input_price_add in Hp; auto. destruct Hp as (Hp1 & Hk).
+      apply update_reserve_spec in Hupd; auto; try lia.
+      destruct Hupd as (Hc & Ho & _ & _ & _ & Hwt & E1 & E2 & E3 & E4).
       unfold wfv, kof, base_plus_net. rewrite Hc, E1, E2, E4. intuition lia.
-    + apply input_price_remove in Hp; auto. destruct Hp as (Hx1 & Hlt & Hk).
-      apply update_reserve_spec in Hx0; auto; try lia.
-      destruct Hx0 as (Hc & Ho & _ & _ & _ & Hwt & E1 & E2 & E3 & E4).
+    + apply input_price_remove in Hp; auto. destruct Hp as (Hp1 & Hlt & Hk).
+      apply update_reserve_spec in Hupd; auto; try lia.
+      destruct Hupd as (Hc & Ho & _ & _ & _ & Hwt & E1 & E2 & E3 & E4).
       unfold wfv, kof, base_plus_net. rewrite Hc, E1, E2, E4. intuition lia.
 Qed.
 
@@ -205,28 +204,27 @@ Proof.
   unfold swap_output in H.
   destruct (v_open (vs v)); [|discriminate].
   destruct (s =? v_engine (vc v)); [|discriminate].
-  inv_bind H. inv_bind H. injection H as E1 E2 E3; subst v' qa ba.
+  inv_bind H. inv_bind H. inv_bind H. injection H as E1 E2 E3; subst v' qa ba.
   assert (Hquote : (base = 0 /\ x = 0) \/ (0 < base /\ output_price (v_dec (vc v)) d base (v_q (vs v)) (v_b (vs v)) = Ok x)).
-  { destruct (Z.eqb_spec base 0) as [E|E]; cbn [negb] in Hx.
-    - inv_ok. auto.
-    - right. split; [lia|]. inv_bind Hx. rewrite Hx1.
-      destruct (negb (lim =? 0)); [|inv_ok; reflexivity].
-      destruct d; cbn [flip] in Hx; destr_if_in Hx; try discriminate; inv_ok; reflexivity. }
+  { destruct (Z.eq_dec base 0) as [E|E].
+    - left. subst. unfold output_price in Hx. cbn in Hx. inv_ok. auto.
+    - right. split; [lia|exact Hx]. }
+  rename Hx1 into Hupd.
   clear Hx.
   destruct Hquote as [[E1 E2]|[Hpos Hp]].
-  - subst. apply update_reserve_spec in Hx0; auto; try lia.
-    destruct Hx0 as (Hc & Ho & _ & _ & _ & Hwt & Hdir).
+  - subst. apply update_reserve_spec in Hupd; auto; try lia.
+    destruct Hupd as (Hc & Ho & _ & _ & _ & Hwt & Hdir).
     unfold wfv, kof, base_plus_net. rewrite Hc.
     destruct d; cbn [flip] in Hdir; destruct Hdir as (E1 & E2 & E3 & E4); rewrite E1, E2, E4;
     rewrite ?Z.add_0_r, ?Z.sub_0_r; intuition lia.
-  - destruct d; cbn [flip] in Hx0.
-    + apply output_price_add in Hp; auto. destruct Hp as (Hx1 & Hk).
-      apply update_reserve_spec in Hx0; auto; try lia.
-      destruct Hx0 as (Hc & Ho & _ & _ & _ & Hwt & E1 & E2 & E3 & E4).
+  - destruct d; cbn [flip] in Hupd.
+    + apply output_price_add in Hp; auto. destruct Hp as (Hp1 & Hk).
+      apply update_reserve_spec in Hupd; auto; try lia.
+      destruct Hupd as (Hc & Ho & _ & _ & _ & Hwt & E1 & E2 & E3 & E4).
       unfold wfv, kof, base_plus_net. rewrite Hc, E1, E2, E4. intuition lia.
-    + apply output_price_remove in Hp; auto. destruct Hp as (Hx1 & Hlt & Hk).
-      apply update_reserve_spec in Hx0; auto; try lia.
-      destruct Hx0 as (Hc & Ho & _ & _ & _ & Hwt & E1 & E2 & E3 & E4).
+    + apply output_price_remove in Hp; auto. destruct Hp as (Hp1 & Hlt & Hk).
+      apply update_reserve_spec in Hupd; auto; try lia.
+      destruct Hupd as (Hc & Ho & _ & _ & _ & Hwt & E1 & E2 & E3 & E4).
       unfold wfv, kof, base_plus_net. rewrite Hc, E1, E2, E4. intuition lia.
 Qed.
 
